@@ -329,11 +329,11 @@ def replay_all(run: Run, cases: list, workers: int, stats: dict):
 
 # families of each tier; statement bounds, schedules and MaxOps of every family: Loader.tla (MaxTotal, Sched, MaxOps)
 TIERS = {
-    "quick": ["graph-q", "wild-q", "retarget-q", "fine", "side", "selfcyc", "twostar", "apicyc", "aliasstar"],
-    "thorough": ["graph-q", "wild", "retarget", "fine", "side", "selfcyc", "twostar", "apicyc", "aliasstar"],
+    "quick": ["graph-q", "wild-q", "retarget-q", "fine", "side", "selfcyc", "twostar", "apicyc", "aliasstar", "cycsub"],
+    "thorough": ["graph-q", "wild", "retarget", "fine", "side", "selfcyc", "twostar", "apicyc", "aliasstar", "cycsub"],
 }
 PRESENT = {"graph-q": ["p", "p.a", "p.b", "q"], "graph": ["p", "p.a", "p.b", "q"], "fine": ["p", "p.a", "p.b", "q"],
-           "wild": ["p", "p.a", "p.b"], "wild-q": ["p", "p.a", "p.b"], "retarget": ["p", "p.a", "p.b"], "retarget-q": ["p", "p.a", "p.b"], "selfcyc": ["p", "p.a", "p.b"], "twostar": ["p", "p.a", "p.b"], "apicyc": ["p", "p.a", "p.b"], "aliasstar": ["p", "p.a", "p.b"], "side": ["p", "q", "r"]}
+           "wild": ["p", "p.a", "p.b"], "wild-q": ["p", "p.a", "p.b"], "retarget": ["p", "p.a", "p.b"], "retarget-q": ["p", "p.a", "p.b"], "selfcyc": ["p", "p.a", "p.b"], "twostar": ["p", "p.a", "p.b"], "apicyc": ["p", "p.a", "p.b"], "aliasstar": ["p", "p.a", "p.b"], "cycsub": ["p", "p.a", "p.b", "p.s"], "side": ["p", "q", "r"]}
 
 
 # fixed defect (name of the old behaviour in the spec) -> family on which TLC must still exhibit it when the old behaviour is switched on
